@@ -563,3 +563,46 @@ def r13(ctx, R):
 def r14(ctx, R):
     from .. import memo
     memo.check(ctx, R, lambda m: m.relpath.startswith(('pySDC/implementations/sweeper_classes/', 'pySDC/projects/DAE/sweepers/')) or m.relpath in ('pySDC/core/sweeper.py', 'pySDC/core/level.py', 'pySDC/core/step.py'), 'sweeper classes + core sweeper / level / step')
+
+
+@rule('C02', 'C02.R15', 'outside the sweepers too, whoever fills f[i] pairs node i with ITS time: every store `X.f[i] = eval_f(X.u[i], T)` in core, controllers, convergence controllers and transfer classes uses T = X.time for i = 0 and a time that depends on the node for every other i (a sweep that starts from f values of the wrong time is not the Picard iteration of the stored node values)', floor=12)
+def r15(ctx, R):
+    repo = ctx.repo
+    n = 0
+    for m, ci, fn in repo.all_functions():
+        if 'sweeper_classes' in m.relpath or 'problem_classes' in m.relpath or 'projects/' in m.relpath:
+            continue
+        for s in ast.walk(fn):
+            if not (isinstance(s, ast.Assign) and len(s.targets) == 1 and isinstance(s.targets[0], ast.Subscript) and isinstance(s.targets[0].value, ast.Attribute) and s.targets[0].value.attr == 'f'):
+                continue
+            v = s.value
+            if not (isinstance(v, ast.Call) and isinstance(v.func, ast.Attribute) and v.func.attr == 'eval_f' and len(v.args) == 2):
+                continue
+            n += 1
+            w = f'{m.relpath}:{(ci.name + ".") if ci else ""}{fn.name}'
+            R.fn(w)
+            idx = ast.unparse(s.targets[0].slice)
+            owner = ast.unparse(s.targets[0].value.value)
+            uarg, targ = ast.unparse(v.args[0]), v.args[1]
+            ttxt = ast.unparse(targ)
+            same_slot = uarg == f'{owner}.u[{idx}]'
+            if idx == '0':
+                ok = same_slot and ttxt == f'{owner}.time'
+                want = f'eval_f({owner}.u[0], {owner}.time)'
+            else:
+                # the time must depend on the node: it mentions the index expression (or a local defined from it) and the nodes / dt
+                names = {x.id for x in ast.walk(targ) if isinstance(x, ast.Name)}
+                idx_names = {x.id for x in ast.walk(s.targets[0].slice) if isinstance(x, ast.Name)} | {ast.unparse(x) for x in ast.walk(s.targets[0].slice) if isinstance(x, ast.Attribute)}
+                dep = bool(idx_names & names) or any(re.search(rf'(?<![\w.]){re.escape(a)}(?![\w])', ttxt) for a in idx_names)
+                if not dep:
+                    # one renaming: t_i = .. if i == 0 else .. nodes[i - 1]
+                    for a in ast.walk(fn):
+                        if isinstance(a, ast.Assign) and len(a.targets) == 1 and isinstance(a.targets[0], ast.Name) and a.targets[0].id in names:
+                            src = ast.unparse(a.value)
+                            if 'nodes' in src and any(re.search(rf'\b{re.escape(i_)}\b', src) for i_ in idx_names):
+                                dep = True
+                ok = same_slot and dep and (('nodes' in ttxt) or dep)
+                want = f'eval_f({owner}.u[{idx}], {owner}.time + {owner}.dt * nodes[{idx} - 1])'
+            R.check(ok, f'{fn.name} :: f[{idx}] is evaluated from u[{idx}] at the time of node {idx}', w, want, ast.unparse(s)[:110])
+    if n < 12:
+        raise AnalysisError(f'C02.R15: only {n} stores of eval_f results into f[..] found outside the sweepers')
